@@ -141,8 +141,24 @@ class FakePath:
     def exists(self):
         return self.name in self.fs.files
 
-    def unlink(self):
+    def unlink(self, missing_ok=False):
+        if self.name not in self.fs.files:
+            if missing_ok:
+                return
+            raise FileNotFoundError(2, "No such file or directory", self.name)
         del self.fs.files[self.name]
+
+    def is_file(self):
+        return self.name in self.fs.files
+
+    def stat(self):
+        if self.name not in self.fs.files:
+            raise FileNotFoundError(2, "No such file or directory", self.name)
+        import types
+        return types.SimpleNamespace(st_size=len(self.fs.files[self.name]))
+
+    def touch(self, exist_ok=True):
+        self.fs.files.setdefault(self.name, [])
 
     def __fspath__(self):
         return self.name
